@@ -566,33 +566,37 @@ impl TriMesh {
         // 3. Ensure consistent edge orientation by traversing the adjacency list
         let mut polyline_indices: Vec<[u32; 2]> = Vec::with_capacity(index_adjacencies.len() + 1);
 
-        let mut seen = vec![false; index_adjacencies.len()];
-        for (idx, neighbors) in index_adjacencies.iter().enumerate() {
-            if !seen[idx] {
-                // Start a new component
-                // Traverse the adjencies until the loop closes
+        for first in 0..index_adjacencies.len() {
+            // Walk along the segments starting at `first`, removing them from the adjacency list as
+            // they are traversed, until we get stuck. If the component is made of closed loops, we
+            // get stuck at `first` and all its segments have been traversed. Otherwise, we got stuck
+            // at one end of an open polyline: walk from `first` again, toward the other end, and flip
+            // these segments to keep a consistent orientation.
+            let mut forward = true;
 
-                let first = idx;
+            while let Some(start) = index_adjacencies[first].first().copied() {
                 let mut prev = first;
-                let mut next = neighbors.first(); // Arbitrary neighbor
+                let mut current = start;
 
-                'traversal: while let Some(current) = next {
-                    seen[*current] = true;
-                    polyline_indices.push([prev as u32, *current as u32]);
+                loop {
+                    index_adjacencies[prev].retain(|i| *i != current);
+                    index_adjacencies[current].retain(|i| *i != prev);
+                    polyline_indices.push(if forward {
+                        [prev as u32, current as u32]
+                    } else {
+                        [current as u32, prev as u32]
+                    });
 
-                    for neighbor in index_adjacencies[*current].iter() {
-                        if *neighbor != prev && *neighbor != first {
-                            prev = *current;
-                            next = Some(neighbor);
-                            continue 'traversal;
-                        } else if *neighbor != prev && *neighbor == first {
-                            // If the next index is same as the first, close the polyline and exit
-                            polyline_indices.push([*current as u32, first as u32]);
-                            next = None;
-                            continue 'traversal;
+                    match index_adjacencies[current].first().copied() {
+                        Some(next) => {
+                            prev = current;
+                            current = next;
                         }
+                        None => break,
                     }
                 }
+
+                forward = !forward;
             }
         }
 
